@@ -964,6 +964,30 @@ def has_quantifier(t):
     return any(x.op in ("forall", "exists") for x in subterms(t))
 
 
+def index_instances(hyps, goal, limit=6):
+    """Instances of the universally quantified hypotheses (one Int binder) at the index terms of the goal: the second
+    arguments of seq.nth / str.at in the goal and its skolem constants.  Instances of true universal statements are
+    true, so adding them is sound; they spare the solvers the quantifier instantiation they tend to miss when the
+    goal indexes a concatenation."""
+    cands = []
+    for t in subterms(goal):
+        if t.op in ("seq.nth", "str.at") and len(t.args) == 2:
+            i = t.args[1]
+            if i.sort == INT and not free_bvars(i) and i not in cands:
+                cands.append(i)
+        elif t.op == "const" and str(t.val).startswith("sk.") and t.sort == INT and t not in cands:
+            cands.append(t)
+    out = []
+    if not cands:
+        return out
+    for h in hyps:
+        if h.op == "forall" and len(h.args[0]) == 1 and h.args[0][0].sort == INT:
+            bv, body = h.args[0][0], h.args[1]
+            for c in cands[:limit]:
+                out.append(substitute(body, {bv: c}))
+    return out
+
+
 def bounded_instance(assertions, K=2):
     """For falsification only.  Every quantifier of the shapes
          forall i. (lo <= i < hi) => body        exists i. (lo <= i < hi) and body
